@@ -481,6 +481,47 @@ pub fn run(ctx: &mut Ctx) {
             }
         }
     }
+    // (a3) the same invalid construct twice in one recipe: each occurrence gets its own diagnostic, on itself
+    if ctx.shard == 0 {
+        for (text, sev, stage) in [
+            ("Warm @milk{«1/0»%l} in a #pot.\n\nFold in @flour{«3/0»%g} and rest ~{10%min}.\n", Severity::Error, Stage::Parse),
+            ("Use #pan{1«%large»} then #bowl{2«%small»}.\n", Severity::Error, Stage::Parse),
+            ("@onion{} @garlic{}\n\nAdd @&onion{}«(diced)» and @&garlic{}«(crushed)».\n", Severity::Error, Stage::Analysis),
+            ("Add «@&aa9{}» and «@&bb9{}» now.\n", Severity::Error, Stage::Analysis),
+            ("Add @a{1«%»} and @b{2«%»}.\n", Severity::Warning, Stage::Parse),
+            ("~x{1%min}«(n)» and ~y{2%min}«(m)»\n", Severity::Warning, Stage::Parse),
+            (">> [mode]: «bogus»\n\nstep\n\n>> [mode]: «wrong»\n", Severity::Error, Stage::Analysis),
+        ] {
+            // strip the two marker pairs
+            let mut clean = String::new();
+            let mut ranges: Vec<(usize, usize)> = Vec::new();
+            let mut open = 0;
+            for c in text.chars() {
+                match c {
+                    '«' => open = clean.len(),
+                    '»' => ranges.push((open, clean.len())),
+                    _ => clean.push(c),
+                }
+            }
+            for ext in [E::all().bits(), (E::all() ^ E::INLINE_QUANTITIES).bits()] {
+                let case = Case::new("repeated", clean.as_str(), ext, "bundled").with(json!({"ranges": ranges}));
+                ctx.begin(&case);
+                let parser = ps.parser(ext, "bundled").clone();
+                let Ok(r) = crate::core::guarded(|| parser.parse(&clean)) else {
+                    ctx.count("panic_in_parse(C03)");
+                    continue;
+                };
+                let matching: Vec<&SourceDiag> = r.report().iter().filter(|d| d.severity == sev && d.stage == stage).collect();
+                let untouched: Vec<&(usize, usize)> = ranges.iter().filter(|(lo, hi)| !matching.iter().any(|d| d.labels.first().map(|(sp, _)| sp.start() <= *hi && sp.end() >= *lo).unwrap_or(false))).collect();
+                if !untouched.is_empty() {
+                    ctx.violation(&case, "catalogue", "repeated_construct|occurrence_without_its_own_diagnostic", format!("constructs at {untouched:?} have no {sev:?}/{stage:?} diagnostic whose first label touches them; report: {:?}", r.report().iter().map(|d| format!("{} {:?}", d.message, d.labels.first().map(|l| l.0))).collect::<Vec<_>>()));
+                } else {
+                    ctx.count("repeated_constructs_each_reported");
+                    ctx.nontrivial(&case);
+                }
+            }
+        }
+    }
     // (a') prose that only looks like syntax: a stray marker followed by modifier characters, parentheses or operators
     // and then nothing that can be a component. No ERROR may be reported (a warning about the stray marker is fine).
     if ctx.shard == 0 {
